@@ -60,6 +60,13 @@ class GuardedRunner:
         self.proc = None
         return ("timeout", None)
 
+    def restart(self):
+        """drop the worker (its address space may be fragmented or hold a giant image); the next run starts a fresh one"""
+        if self.proc is not None:
+            self.proc.kill()
+            self.proc.join()
+            self.proc = None
+
     def close(self):
         if self.proc is not None and self.proc.is_alive():
             try:
